@@ -29,7 +29,9 @@ PROPS = {
         "rule": ("Objects: a signed image parsed from a simulated medium (pegen layout or fixture, 1-2 signers), a signature database built through the API (3 variants) or decoded from a stream, a signature list, "
                  "a signed-update value with its descriptor, a parsed PKCS7 and a parsed Authenticode object (each tied to its own copy of the input bytes). "
                  "Ops: Hash/Bytes/Open/Signatures/Verify(signer)/Verify(other); Bytes/Marshal/BytesExists(hit,miss)/SigDataExists/Exists; list Bytes/Exists/ExistsInList/CmpHeader; Marshal/Bytes/descriptor Marshal/Verify; "
-                 "PKCS7 Verify/HasCertificate; Authenticode.Verify. Buffers handed to Marshal are overwritten and reused by the harness afterwards. "
+                 "PKCS7 Verify/HasCertificate; Authenticode.Verify; Hash with SHA-1/SHA-256/SHA-512; a database with a hand-assembled list around a PEM certificate; signed updates with empty, 5-byte and 40-byte payloads. "
+                 "Buffers handed to Marshal are overwritten and reused by the harness afterwards; results the caller keeps are compared with a copy taken when they were returned; every operation kind is first called on a fresh object (baseline) "
+                 "and once on the object under test before the snapshot is taken. "
                  "Non-trivial: mode 1 an operation repeated at least twice; mode 2 at least two clients and one context switch; mode 3 at least two clients. Distinct = distinct event-log hash; "
                  "distinct_schedules = distinct effective context-switch lists."),
         "exhaustive": lambda tier: False,
@@ -69,7 +71,9 @@ PROPS = {
                        "signingTime attribute, DESIGN.md section 6). The additionally returned *EFIVariableAuthentication2 is not part of the statement and not asserted on."),
         "rule": ("Per run: zone, instant, variable (predefined authenticated / any predefined / generated ASCII name 1-64, GUID, mask incl. APPEND_WRITE), payload (empty database, hash lists, "
                  "certificate lists, raw bytes 0-1000), pool key (RSA 2048/3072/4096; self-signed and CA-issued certificates of 19 kinds incl. a 70 KB one), API (SignEFIVariable or WriteSignedUpdate through the "
-                 "simulated filesystem), 1-4 updates per run that stay alive to the end, seeded signer latency (simulated time passes inside Sign), optionally 2-3 interleaved signing goroutines. Every run is non-trivial "
+                 "simulated filesystem), 1-4 updates per run that stay alive to the end, seeded signer latency (simulated time passes inside Sign), optionally 2-3 interleaved signing goroutines; "
+                 "two signer certificates with validity windows inside the simulated time span and the clock 1 s - 14 h inside an edge (a signingTime attribute must then lie inside the window: time-strict verifiers); "
+                 "the caller changes its payload object after the call; payloads incl. generic well-formed databases (0-5 lists, empty lists anywhere). Every run is non-trivial "
                  "(at least one signed update produced and judged); distinct = distinct event-log hash. A second engine runs the same generator with the zone taken from the TZ environment variable of the worker."),
         "exhaustive": lambda tier: False,
         "components": {"real": REAL, "stub": "synctest fake clock, time.Local / TZ zone configuration, simfs recorder (WriteSignedUpdate path)"},
@@ -81,8 +85,8 @@ PROPS = {
         "technique": "seeded edit histories (append/remove/queries/append-list/encode-decode restart) on the real SignatureDatabase against an ordered-entry reference model and an independent EFI_SIGNATURE_LIST reader, swarm-selected universe per run",
         "design_ref": "DESIGN.md section 3 (C09)",
         "level_text": ("The listed defects need particular sequences, not particular inputs; the engine samples histories of 1-40 operations over a deliberately small universe "
-                       "(5 signature types incl. valid-but-undecodable and unknown, 3 owners, 14 data values incl. wrong-size hashes and DER/PEM certificates of equal and different "
-                       "length) so that duplicates, removals from the middle and emptied lists are frequent, and judges every step against the abstract entry sequence; "
+                       "(5 signature types incl. valid-but-undecodable and unknown, 3 owners, 17 data values incl. wrong-size hashes, DER/PEM certificates of equal and different "
+                       "length and PEM with text before/behind the armour) so that duplicates, removals from the middle and emptied lists are frequent, and judges every step against the abstract entry sequence; "
                        "encode->decode is the restart. Exploration: histories are sampled."),
         "level_note": ("Trusted: the abstract model (ordered entries), refesl. The position of an appended entry, which of two equal-header lists receives it, removal/query by PEM form and "
                        "Exists() across split lists are accepted either way because the statement does not fix them. A fresh valid append that fails without changing anything is counted, not flagged."),
@@ -104,11 +108,12 @@ PROPS = {
                        "register model; the recorded history is re-checked by porcupine. Exploration: histories are sampled, not enumerated."),
         "level_note": "Trusted: the register model (a map), refesl value builders, porcupine v1.3.0. APPEND_WRITE is not used (the statement is about plain and signed writes). Reads of never-written variables are not judged.",
         "rule": ("Per run: 1-3 of PK/KEK/db/dbx, optionally an ordinary predefined variable and a generated one; values from a small universe (hash databases of 0-9 entries, "
-                 "certificate databases, multi-list databases, raw bytes of 0-400 bytes), optionally a second variable with the same name under another GUID; ops WriteVar / WriteSignedUpdate / "
-                 "WriteBlob (the same Marshallable object reused) / GetVar / GetVarInto (one destination object reused) / GetVarWithAttributes / typed Get* / Reopen; stores pre-populated with extra attribute bits. Non-trivial: a read of a "
+                 "certificate databases, multi-list databases, databases ending in a header-only list, generic well-formed databases of 0-5 lists with empty lists anywhere, raw bytes of 0-400 bytes), optionally a second variable with the same name under another GUID; ops WriteVar / WriteSignedUpdate / "
+                 "WriteBlob (the same Marshallable object reused) / GetVar / GetVarInto (one destination object reused) / GetVarWithAttributes / typed Get* / Reopen; stores pre-populated with extra attribute bits; "
+                 "in one run of five the byte store underneath fails at 1-4 seeded calls (a write that reports the failure leaves the variable indeterminate until the next acknowledged write, a failing read is not judged, every acknowledged write is read back exactly). Non-trivial: a read of a "
                  "variable that has been written at least twice. Distinct = distinct event-log hash."),
         "exhaustive": lambda tier: False,
-        "components": {"real": REAL + "; efivarfs/testfs as shipped (its own afero.MemMapFs)", "stub": "synctest fake clock (signing time, descriptor time), harness Marshallable/Unmarshallable, supervised worker process"},
+        "components": {"real": REAL + "; efivarfs/testfs as shipped (its own afero.MemMapFs)", "stub": "synctest fake clock (signing time, descriptor time), harness Marshallable/Unmarshallable, supervised worker process; in faulty runs simfs (fault plane) between the store and its own MemMapFs"},
         "assumptions": COMMON_ASSUMPTIONS,
     },
     "C11": {
@@ -124,7 +129,7 @@ PROPS = {
                        "reference path/GUID formatting in refvars.go. Extra open flag bits and read-only metadata calls are accepted; efi/efi.go Get* helpers are out of scope."),
         "rule": ("Grid: every predefined efivar definition x {obj,legacy} write APIs x values x with/without APPEND_WRITE x 4 efivars directories; reads x every stored-mask relation "
                  "(equal, superset, each required bit removed, disjoint, zero) x present/absent/0-3 byte files x decoder failure; name-resolving legacy entry points, "
-                 "WriteSignedUpdate, nine typed accessors, boot-entry sequences, every name-addressable variable plus near-miss names on the name-resolving legacy API, a machine without "
+                 "WriteSignedUpdate, nine typed accessors (in the seeded part on values of arbitrary well-formed shape), boot-entry sequences, every name-addressable variable plus near-miss names on the name-resolving legacy API, a machine without "
                  "efivars directory. Then seeded sequences of 1-4 operations over generated definitions (incl. same name under two GUIDs) under seeded device behaviour: legal short reads, a device "
                  "that accepts a short write, a missing directory, and 2-3 interleaved caller goroutines (every filesystem call is a yield point). Every case is non-trivial; "
                  "distinct = distinct event-log hash."),
